@@ -121,7 +121,15 @@ fn gen_logical(rng: &mut Rng) -> Logical {
     let root_appenders = pick(rng);
     let mut loggers: Vec<LoggerSpec> = vec![];
     for _ in 0..rng.usize_below(4) {
-        let name = if !loggers.is_empty() && rng.chance(1, 2) {
+        let name = if rng.chance(1, 6) {
+            // names that stress each format's string syntax: characters outside the BMP (a JSON writer that
+            // emits ASCII spells them as surrogate-pair escapes) and a key longer than 1024 bytes
+            match rng.below(3) {
+                0 => "a::\u{1F600}".to_owned(),
+                1 => "\u{1D518}\u{1D52B}::b".to_owned(),
+                _ => format!("a::{}", "x".repeat(1100)),
+            }
+        } else if !loggers.is_empty() && rng.chance(1, 2) {
             format!("{}::{}", rng.pick(&loggers).name, rng.pick(&["a", "b"]))
         } else {
             gen_name(rng, 3)
@@ -264,11 +272,47 @@ fn document(l: &Logical, dir: &str) -> Value {
     Value::Object(doc)
 }
 
-const FORMATS: [&str; 4] = ["yaml", "json", "toml", "yml"];
+/// `<extension>[:<writing style>]`; the first three are the plain emitters of the three formats.
+const FORMATS: [&str; 7] = ["yaml", "json", "toml", "yml", "json:ascii", "json:tabs", "yaml:flow"];
+
+fn ext(fmt: &str) -> &str {
+    fmt.split(':').next().unwrap()
+}
+
+/// JSON as an ASCII-only writer emits it: everything beyond ASCII as \uXXXX, characters outside the BMP as
+/// surrogate pairs, and the solidus escaped (all legal JSON).
+fn json_ascii(doc: &Value) -> String {
+    let text = serde_json::to_string(doc).unwrap();
+    let mut out = String::new();
+    for c in text.chars() {
+        if c == '/' {
+            out.push_str("\\/");
+        } else if c.is_ascii() {
+            out.push(c);
+        } else {
+            let mut buf = [0u16; 2];
+            for u in c.encode_utf16(&mut buf) {
+                out.push_str(&format!("\\u{:04X}", u));
+            }
+        }
+    }
+    out
+}
 
 fn serialize(doc: &Value, fmt: &str) -> Result<String, String> {
     match fmt {
         "json" => Ok(serde_json::to_string_pretty(doc).unwrap()),
+        "json:ascii" => Ok(json_ascii(doc)),
+        // tab-indented, CRLF line ends, byte-order mark free: still JSON
+        "json:tabs" => {
+            use serde::Serialize;
+            let mut buf = vec![];
+            let mut ser = serde_json::Serializer::with_formatter(&mut buf, serde_json::ser::PrettyFormatter::with_indent(b"\t"));
+            doc.serialize(&mut ser).unwrap();
+            Ok(String::from_utf8(buf).unwrap().replace('\n', "\r\n"))
+        }
+        // flow style: a YAML document written with braces and brackets only
+        "yaml:flow" => Ok(serde_json::to_string_pretty(doc).unwrap()),
         "toml" => toml::to_string(doc).map_err(|e| format!("harness toml emitter: {}", e)),
         _ => serde_yaml::to_string(doc).map_err(|e| format!("harness yaml emitter: {}", e)),
     }
@@ -652,6 +696,9 @@ fn check_equivalence(rep: &mut Report, rng: &mut Rng, idx: u64) {
     let doc_for_report = document(&l, "<DIR>");
     rep.case(&doc_for_report.to_string(), true);
     for fmt in FORMATS.iter().chain(["programmatic"].iter()) {
+        if *fmt == "yaml:flow" && l.routing.loggers.iter().any(|lg| lg.name.len() > 1000) {
+            continue; // YAML limits an implicit key to 1024 characters: such a document is not YAML in flow style
+        }
         let sc = Scratch::new("c14");
         let dir = sc.path.clone();
         prepopulate(&l, &dir);
@@ -672,8 +719,9 @@ fn check_equivalence(rep: &mut Report, rng: &mut Rng, idx: u64) {
                     return;
                 }
             };
-            let path = dir.join(format!("log4rs.{}", fmt));
+            let path = dir.join(format!("log4rs.{}", ext(fmt)));
             std::fs::write(&path, &text).unwrap();
+            rep.observe("writing_styles", fmt);
             match trap::catch(|| log4rs::config::load_config_file(&path, Deserializers::default())) {
                 Err(p) => {
                     rep.violation(&format!("C14:panic:load_config_file:{}", p.site()), json!({"case": desc(fmt, &text), "panic": p.message}));
@@ -685,7 +733,7 @@ fn check_equivalence(rep: &mut Report, rng: &mut Rng, idx: u64) {
                 }
                 Ok(Ok(c)) => {
                     // refresh rate, through the raw config
-                    let raw: Result<RawConfig, String> = match *fmt {
+                    let raw: Result<RawConfig, String> = match ext(fmt) {
                         "json" => serde_json::from_str(&text).map_err(|e| e.to_string()),
                         "toml" => toml::from_str(&text).map_err(|e| e.to_string()),
                         _ => serde_yaml::from_str(&text).map_err(|e| e.to_string()),
